@@ -169,6 +169,11 @@ def frac(x):
 
 
 def fstr(x):
+    try:
+        if isinstance(x, float) and x == float("inf"):
+            return "-1"          # the driver encodes np.inf (Hamming of unequal lengths) as -1
+    except Exception:  # noqa
+        pass
     f = frac(x)
     return str(f.numerator) if f.denominator == 1 else f"{f.numerator}/{f.denominator}"
 
